@@ -132,7 +132,9 @@ fn live_mask(infos: &mut [Info], mp: &str) -> (u128, bool) {
     let mut partial = false;
     for (r, inf) in infos.iter_mut().enumerate() {
         let total = span_of(inf.size) / PAGE;
-        let name = if inf.kind == 0 { None } else { Some(inf.name.as_str()) };
+        // the whole name: "…_r1" must not match the line of "…_r10"
+        let needle = format!("/memfd:{} (deleted)", inf.name);
+        let name = if inf.kind == 0 { None } else { Some(needle.as_str()) };
         let mapped = (0..total).filter(|k| page_mapped(&lines, inf.addr + k * PAGE, name)).count();
         let alive = if inf.kind == 0 {
             // an anonymous range seen unmapped once is dead for good (its addresses may be handed out again)
@@ -231,7 +233,8 @@ fn build_region(cid: u64, id: u64, kind: u64, raws: &mut Vec<usize>) -> (MmapReg
 
 /// number of mappings in /proc/self/maps whose backing file carries `name`
 fn named_mappings(name: &str) -> u128 {
-    maps().lines().filter(|l| l.contains(name)).count() as u128
+    let needle = format!("/memfd:{} (deleted)", name);
+    maps().lines().filter(|l| l.contains(&needle)).count() as u128
 }
 
 /// variants 0..5 of CreateRefused: requests refused before anything is mapped.  Returns (st, stray mappings).
@@ -491,6 +494,12 @@ fn exec(case: &[Tok]) -> Vec<Tok> {
         }
         if now_bytes as i128 != expect {
             corrupt = true;
+            if std::env::var("VMH_DEBUG12").is_ok() {
+                eprintln!("accounting: prev {:x} now {:x} expect {:x} prev_mask {:x} mask {:x} partial {}\n{}", prev_bytes, now_bytes, expect, prev_mask, mask, partial, mp);
+                for inf in infos.iter() {
+                    eprintln!("  region kind {} {} addr {:x} size {:x} dead {}", inf.kind, inf.name, inf.addr, inf.size, inf.dead_seen);
+                }
+            }
         }
         prev_bytes = now_bytes;
         prev_mask = mask;
